@@ -75,6 +75,10 @@ SCALAR_BUILTINS = {"len", "abs", "int", "float", "str", "sum", "isinstance", "an
                    "round", "bool", "hash", "id", "repr", "type", "hasattr", "callable", "divmod", "pow", "ord",
                    "chr", "format", "issubclass"}
 PASSTHROUGH_BUILTINS = {"iter", "reversed", "enumerate", "zip", "map", "filter"}
+EXTERNAL_ARG_MUTATORS = {"random.shuffle": (0,), "numpy.random.shuffle": (0,), "heapq.heappush": (0,), "heapq.heappop": (0,), "heapq.heapify": (0,),
+                         "heapq.heapreplace": (0,), "heapq.heappushpop": (0,), "bisect.insort": (0,), "bisect.insort_left": (0,), "bisect.insort_right": (0,),
+                         "numpy.copyto": (0,), "numpy.put": (0,), "numpy.place": (0,), "numpy.putmask": (0,), "numpy.fill_diagonal": (0,), "numpy.put_along_axis": (0,),
+                         "operator.setitem": (0,), "operator.delitem": (0,), "operator.iadd": (0,), "operator.ior": (0,), "operator.iand": (0,), "operator.isub": (0,)}
 FRESH_CONTAINER_CTORS = {"list": "list", "set": "set", "sorted": "list", "tuple": "tuple", "frozenset": "frozenset",
                          "dict": "dict",
                          "sortedcontainers.SortedSet": "SortedSet", "sortedcontainers.SortedDict": "SortedDict",
@@ -682,6 +686,12 @@ class Flow:
                     return T_FLOAT, set()
                 return Ty("ext:" + can), set()
         t, v = self.expr(e.value)
+        if e.attr == "__dict__":
+            return None, v            # the attribute dictionary of an object: an alias of the object for this analysis
+        if e.attr in BUILTIN_MUTATORS and isinstance(e.ctx, ast.Load) and v and (t is None or t.name not in M.classes):
+            # `f = container.add` - the bound mutator is taken as a value (called later through the name, or handed to something that calls it):
+            # accounted for here, where the container is named
+            self.mutate(v, f"bound method .{e.attr} taken as a value", e)
         if t is not None and t.name == "type" and t.args and t.args[0].name in M.classes:
             # Class.attr : static method / class attribute
             c = M.classes[t.args[0].name]
@@ -1028,6 +1038,22 @@ class Flow:
         allv = set().union(*args) if args else set()
         a0 = args[0] if args else set()
         t0 = self.type_at(nodes[0]) if nodes else None
+        # reflective access: getattr(o, "f") is o.f; vars(o) is o's attribute dictionary (an alias of o for the purposes of this analysis);
+        # setattr / delattr write o
+        if can == "getattr" and len(nodes) >= 2:
+            if isinstance(nodes[1], ast.Constant) and isinstance(nodes[1].value, str):
+                return self._attribute(ast.copy_location(ast.Attribute(value=nodes[0], attr=nodes[1].value, ctx=ast.Load()), call))
+            return None, a0 | self.read_all(a0, "[]")
+        if can in ("setattr", "delattr") and nodes:
+            self.mutate(a0, f"{can}(...)", call)
+            return None, set()
+        if can == "vars" and nodes:
+            return None, a0
+        # library functions that update an argument in place
+        if can in EXTERNAL_ARG_MUTATORS:
+            for i in EXTERNAL_ARG_MUTATORS[can]:
+                if i < len(args):
+                    self.mutate(args[i], f"{can}(...) updates its argument in place", call)
         self._record_call(call, [], can if "." in can else f"builtins.{can}", set(), None, args, kwargs, method=can,
                           arg_nodes=nodes)
         if can in SCALAR_BUILTINS:
